@@ -67,7 +67,10 @@ def walk_local_body(func_node):
     """All nodes executed when the function body runs (not nested scopes' bodies).
     Decorators, defaults and annotations of the function itself are excluded."""
     for s in func_node.body:
-        yield from walk_local(s)
+        if isinstance(s, SCOPE_NODES):
+            yield s               # a nested def directly in the body: its code runs at another time
+        else:
+            yield from walk_local(s)
 
 
 def local_calls(node):
